@@ -160,11 +160,14 @@ def plan(prop, tier):
         mc = [("Y", 3, "valid", "single")] if q else [("Y", 4, "valid", "single")]
         bs = [B("Y", 3 if q else 4, runs=runs_todates, configs=cfg_one_method, sample=1500 if q else 20000),
               B("T", 3, runs=runs_todates, configs=cfg_one_method, sample=1000 if q else 6000),
+              B("Z", 3 if q else 4, runs=runs_todates, configs=cfg_one_method, sample=800 if q else 20000),
+              B("C", 3, runs=runs_full, configs=cfg_one_method, sample=500 if q else 5000),
               B("Y", 12, sim=100 if q else 1500, depth=12, runs=runs_todates, configs=cfg_one_method)]
     elif prop == "C07":
         mc = [("M", 2, "valid", "single")] if q else [("M", 3, "valid", "single"), ("B", 3, "valid", "single")]
         bs = [B("M", 3, runs=runs_todates, configs=cfg_one_method, sample=1500 if q else 30000), B("B", 3, runs=runs_todates, configs=cfg_one_method, sample=1000 if q else None),
               B("M", 3, mode="any", runs=runs_neg, configs=cfg_one_method, sample=800 if q else 10000),
+              B("Z", 3 if q else 4, runs=runs_todates, configs=cfg_one_method, sample=800 if q else 20000),
               B("M", 10, sim=100 if q else 1500, depth=10, runs=runs_todates, configs=cfg_one_method)]
     elif prop == "C08":
         mc = [("M", 2, "any", "single")] if q else [("M", 3, "any", "single")]
@@ -177,12 +180,15 @@ def plan(prop, tier):
         bs = [B("A", 3 if q else 4, runs=runs_todates, configs=cfg_methods, sample=2500 if q else 60000),
               B("Y", 3, runs=runs_todates, configs=cfg_two_methods, sample=800 if q else None),
               B("B", 3, runs=runs_todates, configs=cfg_one_method, sample=600 if q else None),
+              B("Z", 3 if q else 4, runs=runs_todates, configs=cfg_two_methods, sample=600 if q else 20000),
+              B("C", 3, runs=runs_prefixes, configs=cfg_methods, sample=500 if q else 10000),
               B("A", 12, sim=100 if q else 2000, depth=12, runs=runs_todates, configs=cfg_two_methods)]
     elif prop == "C10":
         mc = [("Y", 3, "valid", "single")] if q else [("Y", 4, "valid", "single")]
         bs = [B("Y", 3 if q else 4, runs=runs_windows, configs=cfg_one_method, sample=700 if q else 8000),
               B("A", 3, runs=runs_windows, configs=cfg_one_method, sample=500 if q else 5000),
               B("B", 3, runs=runs_windows, configs=cfg_one_method, sample=300 if q else 3000),
+              B("Z", 3 if q else 4, runs=runs_windows, configs=cfg_one_method, sample=500 if q else 8000),
               B("Y", 10, sim=60 if q else 800, depth=10, runs=runs_windows, configs=cfg_one_method)]
     else:
         raise common.MachineryError(f"no ledger plan for {prop}")
